@@ -10,6 +10,7 @@ import (
 	"verif/explore"
 	"verif/hx"
 	"verif/vrt"
+	"verif/wire"
 )
 
 // C15, what happens BEFORE the application closes: a transmission or reception fault on either socket, an
@@ -21,7 +22,7 @@ import (
 
 var vfC15Events = []string{"none", "client-write-fault", "listener-write-fault", "client-read-fault", "listener-read-fault",
 	"server-oob-handler-closes-its-session", "client-oob-handler-closes-its-session", "two-goroutines-close-at-once", "server-oob-handler-closes-the-listener",
-	"forged-fec-type-in-a-steady-stream", "close-mid-burst-on-a-slow-path", "write-fault-then-close-mid-burst"}
+	"forged-fec-type-in-a-steady-stream", "close-mid-burst-on-a-slow-path", "write-fault-then-close-mid-burst", "peer-restarts-with-a-new-conversation"}
 
 func vfC15EventRun(own bool, ciph string, K int, batch bool, only ...string) explore.RunFunc {
 	events := vfC15Events
@@ -118,6 +119,7 @@ func vfC15EventRun(own bool, ciph string, K int, batch bool, only ...string) exp
 			srv := server
 			mu.Unlock()
 			firstOK := 0
+			retired := false
 			switch ev {
 			case "client-write-fault":
 				csock.failWrites(errVfInjected)
@@ -156,6 +158,25 @@ func vfC15EventRun(own bool, ciph string, K int, batch bool, only ...string) exp
 				binary.LittleEndian.PutUint16(b[6:], 32)
 				lsock.inject(caddr, sealer.seal(b))
 				vrt.Sleep(60 * time.Millisecond)
+			case "peer-restarts-with-a-new-conversation":
+				// the peer's address opens another conversation (a restarted peer, a reused port): the listener retires the session
+				// it had for that address. The application is told nothing but a failing Read, so the retired session is the
+				// library's to close: the shutdown below does not close it again.
+				pl := wire.EncodeSegment(wire.Seg{Conv: vfConv + 1, Cmd: wire.CmdPush, Wnd: 32, Sn: 0, Data: []byte("hello again")}, -1)
+				b := make([]byte, fecHeaderSizePlus2+len(pl))
+				binary.LittleEndian.PutUint32(b, 0)
+				binary.LittleEndian.PutUint16(b[4:], typeData)
+				binary.LittleEndian.PutUint16(b[6:], uint16(len(pl)+2))
+				copy(b[fecHeaderSizePlus2:], pl)
+				lsock.inject(caddr, vfNewSealer(ciph).seal(b))
+				vrt.Sleep(5 * time.Millisecond)
+				if srv != nil {
+					retired = true
+					var x struct{}
+					if vrt.Select(true, srv.die.RecvCase(&x, nil)) != 0 {
+						bad("C15:retired-session-not-closed", "the listener replaced the session of %s by a new conversation and left the old session open (%s)", caddr, desc)
+					}
+				}
 			case "close-mid-burst-on-a-slow-path", "write-fault-then-close-mid-burst":
 				// datagrams take time on the way out, a large write fills the transmit pipeline, and the session is closed while
 				// the pipeline is still full (with an owned transport Close itself makes the remaining transmissions fail)
@@ -195,7 +216,7 @@ func vfC15EventRun(own bool, ciph string, K int, batch bool, only ...string) exp
 			mu.Lock()
 			srv = server
 			mu.Unlock()
-			if srv != nil {
+			if srv != nil && !retired {
 				srv.Close()
 			}
 			lis.Close()
